@@ -34,6 +34,9 @@ MAP = [
  ("ELF loader sizes a PT_LOAD area up to the page boundary", ["C15", "C16"], "a PT_LOAD with unaligned p_vaddr got round_up(p_memsz) bytes and ran into the next page: a well-formed file with a segment on that page failed to load; p_memsz + 0xfff overflowed"),
  ("ELF loader bounds the memory image", ["C16"], "p_memsz = 2^40 made from_binary ask the allocator for a terabyte: the process aborted instead of returning an error"),
  ("ELF loader computes the TLS end address with wrapping", ["C16"], "a PT_TLS header on an area ending at 2^64 panicked on p_vaddr + len (overflow-checked builds)"),
+ ("pipe() draws its descriptor numbers again", ["C14", "C20"], "pipe() failed at random (about k/32768 with k open pipes) when a freshly drawn descriptor number was already in use; equal numbers for both ends were accepted"),
+ ("pipe() returns an error when the second descriptor slot", ["C14", "C19"], "pipe(fd_array) with fd_array = 2^64-8 inside an area ending at 2^64 panicked on fd_ptr + 8"),
+ ("zero-filled memory is allocated fallibly", ["C13", "C19"], "brk(2^40) with nothing above the heap (or mem_init_zero with such a length) aborted the process with an allocation failure"),
  ("a CS segment override on a memory operand is accepted", ["C05", "C06"], "a 0x2E (CS) prefix on a memory operand made the step fail with 'Unsupported segment register: CS'"),
 ]
 log = subprocess.run(["git", "-C", "/repo", "log", "--format=%H %s", "--reverse"], capture_output=True, text=True).stdout.splitlines()
